@@ -1,0 +1,33 @@
+//go:build verif
+
+package function
+
+// Contracts for govc (see /verif/DESIGN.md). Comment-only file: it adds no code.
+//
+//@ func function.NewArgError
+//@   tags C10
+//@   ensures[C10] (= result (box<function.ArgError> (mk.function.ArgError err i)))
+//
+//@ func function.NewArgErrorf
+//@   tags C10
+//@   ensures[C10] (and ((_ is box<function.ArgError>) result) (= (function.ArgError.Index (unbox<function.ArgError> result)) i))
+//
+//@ func function.errorForPanic
+//@   tags C10
+//@   ensures[C10] ((_ is box<function.PanicError>) result)
+//
+//@ func (function.Function).returnTypeForValues
+//@   tags C10
+//@   requires (not (= (function.Function.spec f) 0))
+//@   requires (sp_wf (spec_of f))
+//@   requires (vals_typed args (Slice.len args))
+//@   let sp (spec_of f)
+//@   let idx (function.ArgError.Index (unbox<function.ArgError> err))
+//@   ensures[C10] argerr: (=> (and ((_ is box<function.ArgError>) err) (not (from_callback err))) (and (<= 0 idx) (< idx (Slice.len args)) (arg_offends (sp_param_for sp idx) (val_at args idx))))
+//@   ensures[C10] dyn: (=> dynTypedArgs (and (= err nil.Any) (is_dyn_ty ty)))
+//@   ensures[C10] arity: (=> (or (< (Slice.len args) (sp_nparams sp)) (and (not (sp_hasvar sp)) (not (= (Slice.len args) (sp_nparams sp))))) (and (not (= err nil.Any)) (not ((_ is box<function.ArgError>) err))))
+//@   loop 1 invariant (= (Slice.len args) (Slice.len $p.args))
+//@   loop 2 invariant (= (Slice.len args) (Slice.len $p.args))
+//@   calls f.spec.Type
+//@     may_panic
+//@     ensures (from_callback result.1)
